@@ -880,6 +880,40 @@ Fixpoint supported (E : pyenv) (cl : list (str * str)) (sm ia : str) (v : val) {
   | VOpaque _ => false
   end.
 
+(** ** C20: the positions dump traverses, and occurrence in the dumped form *)
+
+(** the test of lines 197 and 203-206 on one field *)
+Definition field_kept (E : pyenv) (cfg : config) (ignl : list val) (kx : str * val) : bool :=
+  negb (existsb (py_eq (VStr (fst kx))) ignl) && (known_type E cfg (snd kx) && negb (existsb (py_eq (snd kx)) ignl)).
+
+Definition seq_items (v : val) : option (list val) :=
+  match v with VList l | VTuple l | VSet l | VFrozen l => Some l | _ => None end.
+
+(** [reaches ... v y]: [y] sits at a position of [v] that dump traverses — items of lists / tuples /
+    sets / frozensets, dict values, fields of automatically serialised objects that pass the filter —
+    through nodes to which no handler applies (a handler's argument is not traversed) *)
+Inductive reaches (E : pyenv) (cfg : config) (sm ia : str) (ign : list val) : val -> val -> Prop :=
+| R_here v : reaches E cfg sm ia ign v v
+| R_item v l x y :
+    seq_items v = Some l -> handler_for cfg (type_of v) = None -> In x l ->
+    reaches E cfg sm ia ign x y -> reaches E cfg sm ia ign v y
+| R_value m k x y :
+    handler_for cfg TDict = None -> In (k, x) m ->
+    reaches E cfg sm ia ign x y -> reaches E cfg sm ia ign (VDict m) y
+| R_field c fields d ignl n x y :
+    handler_for cfg (TClass c) = None -> find_class (e_ctab E) c = Some d ->
+    flookup sm fields = None -> mro_find (e_ctab E) c (ser_pred sm) = None ->
+    ignore_list E ia ign c fields = Ok ignl ->
+    nodup_str (map fst fields) = true -> n <> "__jsonclass__" ->
+    In (n, x) fields -> field_kept E cfg ignl (n, x) = true ->
+    reaches E cfg sm ia ign x y -> reaches E cfg sm ia ign (VInst c fields) y.
+
+(** [occurs o out]: [o] is [out] or sits in it below list items and dict values *)
+Inductive occurs : val -> val -> Prop :=
+| O_here o : occurs o o
+| O_item o ys y : In y ys -> occurs o y -> occurs o (VList ys)
+| O_value o m k y : In (k, y) m -> occurs o y -> occurs o (VDict m).
+
 Definition is_prim (v : val) : bool :=
   match v with VNone | VBool _ | VInt _ | VFlt _ | VStr _ => true | _ => false end.
 
